@@ -7,7 +7,10 @@ import (
 	"math/big"
 	"sort"
 	"strings"
+	"sync"
 )
+
+var termMu sync.Mutex
 
 type SortKind int
 
@@ -86,9 +89,51 @@ type Term struct {
 
 var termCounter int
 
+var internTab = map[string]*Term{}
+
+// intern returns the canonical instance of a structurally identical term (hash-consing).
+func intern(t *Term) *Term {
+	switch t.Op {
+	case "forall", "exists":
+		return t
+	}
+	var sb strings.Builder
+	sb.WriteString(t.Op)
+	sb.WriteByte('|')
+	sb.WriteString(t.Name)
+	sb.WriteByte('|')
+	sb.WriteString(t.Sort.String())
+	if t.Int != nil {
+		sb.WriteByte('|')
+		sb.WriteString(t.Int.String())
+	}
+	for _, a := range t.Args {
+		fmt.Fprintf(&sb, "|%d", a.id)
+	}
+	k := sb.String()
+	termMu.Lock()
+	defer termMu.Unlock()
+	if x, ok := internTab[k]; ok {
+		return x
+	}
+	internTab[k] = t
+	return t
+}
+
 func mk(op string, sort *Sort, args ...*Term) *Term {
+	switch op {
+	case "var", "bound", "int", "bv", "app", "extract", "zext", "sext", "constarr", "forall", "exists":
+		return mkRaw(op, sort, args...)
+	}
+	return intern(mkRaw(op, sort, args...))
+}
+
+func mkRaw(op string, sort *Sort, args ...*Term) *Term {
+	termMu.Lock()
 	termCounter++
-	t := &Term{Op: op, Sort: sort, Args: args, id: termCounter, size: 1}
+	id := termCounter
+	termMu.Unlock()
+	t := &Term{Op: op, Sort: sort, Args: args, id: id, size: 1}
 	for _, a := range args {
 		if a.hasBound {
 			t.hasBound = true
@@ -104,14 +149,14 @@ func mk(op string, sort *Sort, args ...*Term) *Term {
 func Var(name string, s *Sort) *Term {
 	t := mk("var", s)
 	t.Name = name
-	return t
+	return intern(t)
 }
 
 func BoundVar(name string, s *Sort) *Term {
 	t := mk("bound", s)
 	t.Name = name
 	t.hasBound = true
-	return t
+	return intern(t)
 }
 
 func IntLit(v int64) *Term { return IntBig(big.NewInt(v)) }
@@ -119,7 +164,7 @@ func IntLit(v int64) *Term { return IntBig(big.NewInt(v)) }
 func IntBig(v *big.Int) *Term {
 	t := mk("int", IntSort)
 	t.Int = new(big.Int).Set(v)
-	return t
+	return intern(t)
 }
 
 func BVLit(v *big.Int, w int) *Term {
@@ -127,12 +172,12 @@ func BVLit(v *big.Int, w int) *Term {
 	m := new(big.Int).Lsh(big.NewInt(1), uint(w))
 	x := new(big.Int).Mod(v, m)
 	t.Int = x
-	return t
+	return intern(t)
 }
 
 var (
-	True  = &Term{Op: "bool", Sort: BoolSort, B: true, size: 1}
-	False = &Term{Op: "bool", Sort: BoolSort, B: false, size: 1}
+	True  = &Term{Op: "bool", Sort: BoolSort, B: true, size: 1, id: -1}
+	False = &Term{Op: "bool", Sort: BoolSort, B: false, size: 1, id: -2}
 )
 
 func BoolLit(b bool) *Term {
@@ -151,6 +196,9 @@ func (t *Term) IsIntLit() bool {
 func sameTerm(a, b *Term) bool {
 	if a == b {
 		return true
+	}
+	if !a.hasBound && !b.hasBound && a.Op != "forall" && a.Op != "exists" {
+		return false // hash-consed: structurally equal terms are identical
 	}
 	if a.Op != b.Op || a.Sort != b.Sort || len(a.Args) != len(b.Args) {
 		return false
@@ -462,7 +510,7 @@ func BVExtract(hi, lo int, a *Term) *Term {
 	}
 	t := mk("extract", BVSort(hi-lo+1), a)
 	t.Name = fmt.Sprintf("(_ extract %d %d)", hi, lo)
-	return t
+	return intern(t)
 }
 
 func BVZeroExt(n int, a *Term) *Term {
@@ -474,7 +522,7 @@ func BVZeroExt(n int, a *Term) *Term {
 	}
 	t := mk("zext", BVSort(a.Sort.Width+n), a)
 	t.Name = fmt.Sprintf("(_ zero_extend %d)", n)
-	return t
+	return intern(t)
 }
 
 func BVSignExt(n int, a *Term) *Term {
@@ -491,7 +539,7 @@ func BVSignExt(n int, a *Term) *Term {
 	}
 	t := mk("sext", BVSort(a.Sort.Width+n), a)
 	t.Name = fmt.Sprintf("(_ sign_extend %d)", n)
-	return t
+	return intern(t)
 }
 
 func Select(a, i *Term) *Term {
@@ -531,7 +579,7 @@ func App(name string, res *Sort, args ...*Term) *Term {
 	for _, a := range args {
 		t.ArgSorts = append(t.ArgSorts, a.Sort)
 	}
-	return t
+	return intern(t)
 }
 
 func Forall(bound []*Term, body *Term) *Term { return quant("forall", bound, body) }
@@ -593,7 +641,7 @@ func hasOuterBound(t *Term, inner []*Term) bool {
 }
 
 // Ref constructors
-var NilRef = &Term{Op: "nil", Sort: RefSort, size: 1}
+var NilRef = &Term{Op: "nil", Sort: RefSort, size: 1, id: -3}
 
 func Obj(id *Term) *Term          { return mk("obj", RefSort, id) }
 func Emb(p *Term, fld int) *Term  { return mk("emb", RefSort, p, IntLit(int64(fld))) }
@@ -841,8 +889,8 @@ func (p *printer) share(roots []*Term) {
 
 const smtPrelude = `(declare-datatypes ((Ref 0)) (((nil) (obj (oid Int)) (emb (eparent Ref) (efld Int)) (elem (lparent Ref) (lidx Int)))))
 (define-fun rootid1 ((r Ref)) Int (ite ((_ is obj) r) (oid r) (- 1)))
-(define-fun par ((r Ref)) Ref (ite ((_ is emb) r) (eparent r) (ite ((_ is elem) r) (lparent r) r)))
-(define-fun rootid ((r Ref)) Int (ite ((_ is obj) r) (oid r) (ite ((_ is nil) r) (- 1) (rootid1 (par (par (par (par r))))))))
+(define-fun parentof ((r Ref)) Ref (ite ((_ is emb) r) (eparent r) (ite ((_ is elem) r) (lparent r) r)))
+(define-fun rootid ((r Ref)) Int (ite ((_ is obj) r) (oid r) (ite ((_ is nil) r) (- 1) (rootid1 (parentof (parentof (parentof (parentof r))))))))
 `
 
 // Query renders assumptions and a negated goal as a complete SMT-LIB script.
